@@ -126,11 +126,39 @@ def consumersOk : Bool :=
     | some q => p.2.2.all (fun op => match op with | .send _ => false | .recv q' => q' == q | _ => true)
     | none => p.2.2.all (fun op => match op with | .recv _ => false | _ => true))
 
+/-- the (held class, acquired class) pairs a program produces when it runs from `held` -/
+def edgesFrom : List Cls → List Op → List (Cls × Cls)
+  | _, [] => []
+  | held, .acq c :: rest => held.map (fun h => (h, c)) ++ edgesFrom (c :: held) rest
+  | held, .acqUp c :: rest => held.map (fun h => (h, c)) ++ edgesFrom (c :: held) rest
+  | held, .rel c :: rest => edgesFrom (held.erase c) rest
+  | held, _ :: rest => edgesFrom held rest
+
+/-- Every nested acquisition of the table.  The lock log of the real crate must stay INSIDE the allowed edges
+    (`edgeAllowed`) and — in the other direction — must SHOW every one of these: a nesting of the table that the
+    code no longer performs means a critical section the model treats as one atomic action (or as a lock held
+    across actions) has been split. -/
+def programEdges : List (Cls × Cls) := (programs.flatMap (fun p => edgesFrom [] p.2.2)).eraseDups
+
+/-- The nestings on which the ATOMIC ACTIONS and the LOCK OWNERSHIP of Layer B rest:
+    `UpdateWeight` reads the old weight, changes the total and writes the new weight under the shard guard of the id
+    (`kw.update` is ONE action); an eviction subtracts the weight and removes the store entry under `weight_used`
+    (`wuOwner` across `wu.sub`/`store.remove`); the sweeper holds its expiry shard across the evictions (`ttlOwner`);
+    `get_ref` keeps the store shard's read guard across `pool.add` (`storeReaders`); sampling estimates under the
+    iterator's guard; `poll` reads the status under the waker lock. -/
+def atomicityRests : List (Cls × Cls) :=
+  [(.kwShard, .wu), (.wu, .storeShard), (.ttlShard, .kwShard), (.ttlShard, .wu), (.ttlShard, .storeShard),
+   (.storeShard, .poolBuf), (.kwShard, .af), (.kwShard, .kwShard), (.ackWaker, .ackStatus)]
+
 /-- Is the edge "holding a lock of class `held`, acquiring one of class `wanted`" (`same` = the very same lock
     instance) allowed by the discipline? Used to validate the lock log of the real crate. -/
 def edgeAllowed (held wanted : Cls) (same : Bool) : Bool :=
   !same && (decide (held.rank < wanted.rank) ||
     (held == wanted && programs.any (fun p => p.2.2.contains (.acqUp wanted))))
+
+def Cls.names : List (String × Cls) :=
+  [("ttlShard", .ttlShard), ("kwShard", .kwShard), ("wu", .wu), ("storeShard", .storeShard), ("af", .af),
+   ("poolBuf", .poolBuf), ("ackWaker", .ackWaker), ("ackStatus", .ackStatus)]
 
 def Cls.ofName? : String → Option Cls
   | "ttlShard" => some .ttlShard
